@@ -12,40 +12,59 @@ package local
 //@ ghost pure func isQ(q *componentcfg.Query, c string, rt apricotpb.RunType, role string, key string) bool =
 //@     q != nil && q.Component == c && q.RunType == rt && q.RoleName == role && q.EntryKey == key
 
+//@ ghost pure func EEQ(c string, rt apricotpb.RunType, role string, key string) bool =
+//@     cfgbackend.EE(componentcfg.absOf(c, rt, role, key))
+
+// a backend that cannot answer is an error, never "there is no such entry"
+//@ func (s *Service) pathExists(query *componentcfg.Query) (absolutePath string, present bool, err error)
+//@   property C20
+//@   opt strings=uf
+//@   pure
+//@   requires s != nil && query != nil
+//@   ensures absolutePath == componentcfg.absOf(query.Component, query.RunType, query.RoleName, query.EntryKey)
+//@   ensures (err != nil) == EEQ(query.Component, query.RunType, query.RoleName, query.EntryKey)
+//@   ensures err == nil ==> present == EQ(query.Component, query.RunType, query.RoleName, query.EntryKey)
+//@   ensures err != nil ==> !present
+
 //@ func (s *Service) queryToAbsPath(query *componentcfg.Query) (absolutePath string, err error)
 //@   property C20
 //@   opt strings=uf
 //@   pure
 //@   requires s != nil
 //@   ensures query != nil ==> absolutePath == componentcfg.absOf(query.Component, query.RunType, query.RoleName, query.EntryKey)
-//@   ensures query != nil ==> (err == nil <==> EQ(query.Component, query.RunType, query.RoleName, query.EntryKey))
+//@   ensures query != nil ==> (err == nil <==> EQ(query.Component, query.RunType, query.RoleName, query.EntryKey) && !EEQ(query.Component, query.RunType, query.RoleName, query.EntryKey))
 
 // The four-step fallback, for all 16 existence patterns at once (symbolic): the result is the first existing of
-// (rt, role), (ANY, role), (rt, any), (ANY, any); none => error and nil. A resolved path always exists.
+// (rt, role), (ANY, role), (rt, any), (ANY, any); none => error and nil. A resolved path always exists. A probe the
+// backend cannot answer ends the resolution with an error: falling through to the next candidate would return an entry
+// that is NOT the most specific existing one.
+//@ ghost pure func x1(q *componentcfg.Query) bool = EQ(q.Component, q.RunType, q.RoleName, q.EntryKey)
+//@ ghost pure func x2(q *componentcfg.Query) bool = EQ(q.Component, componentcfg.FALLBACK_RUNTYPE, q.RoleName, q.EntryKey)
+//@ ghost pure func x3(q *componentcfg.Query) bool = EQ(q.Component, q.RunType, componentcfg.FALLBACK_ROLENAME, q.EntryKey)
+//@ ghost pure func x4(q *componentcfg.Query) bool = EQ(q.Component, componentcfg.FALLBACK_RUNTYPE, componentcfg.FALLBACK_ROLENAME, q.EntryKey)
+//@ ghost pure func f1(q *componentcfg.Query) bool = EEQ(q.Component, q.RunType, q.RoleName, q.EntryKey)
+//@ ghost pure func f2(q *componentcfg.Query) bool = EEQ(q.Component, componentcfg.FALLBACK_RUNTYPE, q.RoleName, q.EntryKey)
+//@ ghost pure func f3(q *componentcfg.Query) bool = EEQ(q.Component, q.RunType, componentcfg.FALLBACK_ROLENAME, q.EntryKey)
+//@ ghost pure func f4(q *componentcfg.Query) bool = EEQ(q.Component, componentcfg.FALLBACK_RUNTYPE, componentcfg.FALLBACK_ROLENAME, q.EntryKey)
 //@ func (s *Service) resolveComponentQuery(query *componentcfg.Query) (resolved *componentcfg.Query, err error)
 //@   property C20
 //@   opt strings=uf
 //@   modifies nothing
 //@   requires s != nil && query != nil
-//@   ensures old(EQ(query.Component, query.RunType, query.RoleName, query.EntryKey)) ==>
+//@   ensures old(!f1(query) && x1(query)) ==>
 //@       err == nil && isQ(resolved, old(query.Component), old(query.RunType), old(query.RoleName), old(query.EntryKey))
-//@   ensures old(!EQ(query.Component, query.RunType, query.RoleName, query.EntryKey) &&
-//@               EQ(query.Component, componentcfg.FALLBACK_RUNTYPE, query.RoleName, query.EntryKey)) ==>
+//@   ensures old(!f1(query) && !x1(query) && !f2(query) && x2(query)) ==>
 //@       err == nil && isQ(resolved, old(query.Component), componentcfg.FALLBACK_RUNTYPE, old(query.RoleName), old(query.EntryKey))
-//@   ensures old(!EQ(query.Component, query.RunType, query.RoleName, query.EntryKey) &&
-//@               !EQ(query.Component, componentcfg.FALLBACK_RUNTYPE, query.RoleName, query.EntryKey) &&
-//@               EQ(query.Component, query.RunType, componentcfg.FALLBACK_ROLENAME, query.EntryKey)) ==>
+//@   ensures old(!f1(query) && !x1(query) && !f2(query) && !x2(query) && !f3(query) && x3(query)) ==>
 //@       err == nil && isQ(resolved, old(query.Component), old(query.RunType), componentcfg.FALLBACK_ROLENAME, old(query.EntryKey))
-//@   ensures old(!EQ(query.Component, query.RunType, query.RoleName, query.EntryKey) &&
-//@               !EQ(query.Component, componentcfg.FALLBACK_RUNTYPE, query.RoleName, query.EntryKey) &&
-//@               !EQ(query.Component, query.RunType, componentcfg.FALLBACK_ROLENAME, query.EntryKey) &&
-//@               EQ(query.Component, componentcfg.FALLBACK_RUNTYPE, componentcfg.FALLBACK_ROLENAME, query.EntryKey)) ==>
+//@   ensures old(!f1(query) && !x1(query) && !f2(query) && !x2(query) && !f3(query) && !x3(query) && !f4(query) && x4(query)) ==>
 //@       err == nil && isQ(resolved, old(query.Component), componentcfg.FALLBACK_RUNTYPE, componentcfg.FALLBACK_ROLENAME, old(query.EntryKey))
-//@   ensures old(!EQ(query.Component, query.RunType, query.RoleName, query.EntryKey) &&
-//@               !EQ(query.Component, componentcfg.FALLBACK_RUNTYPE, query.RoleName, query.EntryKey) &&
-//@               !EQ(query.Component, query.RunType, componentcfg.FALLBACK_ROLENAME, query.EntryKey) &&
-//@               !EQ(query.Component, componentcfg.FALLBACK_RUNTYPE, componentcfg.FALLBACK_ROLENAME, query.EntryKey)) ==>
+//@   ensures old(!f1(query) && !x1(query) && !f2(query) && !x2(query) && !f3(query) && !x3(query) && !f4(query) && !x4(query)) ==>
 //@       err != nil && resolved == nil
+//@   ensures old(f1(query)) ==> err != nil && resolved == nil
+//@   ensures old(!f1(query) && !x1(query) && f2(query)) ==> err != nil && resolved == nil
+//@   ensures old(!f1(query) && !x1(query) && !f2(query) && !x2(query) && f3(query)) ==> err != nil && resolved == nil
+//@   ensures old(!f1(query) && !x1(query) && !f2(query) && !x2(query) && !f3(query) && !x3(query) && f4(query)) ==> err != nil && resolved == nil
 //@   ensures err == nil ==> resolved != nil && EQ(resolved.Component, resolved.RunType, resolved.RoleName, resolved.EntryKey)
 
 // C07: with the Consul backend a run number is what the atomic counter handed out, or the start fails: the result and the
